@@ -131,7 +131,8 @@ def evaluate(inst, shuffle_rng=None):
         exp = sorted(inst["byKey"][k - 1])
         code = got[k]
         if len(code) != len(set(code)):
-            bad.append({"key": k, "spec": exp, "code": code, "why": "repeat"})
+            bad.append({"key": k, "spec": exp, "code": code, "why": "repeat",
+                        "set_differs": sorted(set(code), key=repr) != sorted(exp, key=repr)})
         elif sorted(code, key=repr) != sorted(exp, key=repr):
             bad.append({"key": k, "spec": exp, "code": code, "why": "set"})
     return bad
